@@ -164,7 +164,7 @@ EXPORT int _vsnwprintf_s_chk(wchar_t *restrict dest, rsize_t dmax,
     }
 
 #if defined(HAVE_WCSSTR) || !defined(SAFECLIB_DISABLE_EXTENSIONS)
-    if (unlikely((p = safec_find_percent_wn(fmt)))) {
+    if (unlikely((p = safec_find_percent_wn_printf(fmt)))) {
         { /* any n conversion, whatever flags, width or length modifier */
             *dest = L'\0';
             invoke_safe_str_constraint_handler("vsnwprintf_s: illegal %n", NULL,
